@@ -11,9 +11,13 @@ PROP_MODULES = ["GarbleVerif.Props.C17"]
 DEFS = """struct S17 { a: u8, b: bool }
 enum E17 { A, B(u8), C(u8, bool) }
 fn h17(a: u8, b: bool) -> u8 { if b { a } else { 0u8 } }
+const N17: usize = 2usize;
 """
 PRELUDE = ("let w17a = 3u8; let w17b = 7u16; let w17t = true; let w17s = S17 { a: w17a, b: w17t }; let w17e = E17::B(w17a); "
-           "let w17p = (w17a, w17t); let w17arr = [w17a, 5u8]; let mut w17m = h17(w17a, w17t); let w17i = 1i8;")
+           "let w17p = (w17a, w17t); let w17arr = [w17a, 5u8]; let mut w17m = h17(w17a, w17t); let w17i = 1i8; "
+           # untyped numbers bound by `let mut` are i32 (data_types.md)
+           "let mut w17u = 7; let mut w17ua = [7, 8]; let mut w17ur = [7; 2]; let mut w17uc = [7; N17]; let mut w17ut = (7, true); "
+           "let w17j: i32 = w17u + w17ua[0usize] + w17ur[1usize] + w17uc[0usize] + w17ut.0;")
 
 # (rule, statement inserted into main | extra top-level text). `{}`-free plain text.
 STATEMENTS = [
@@ -43,6 +47,17 @@ STATEMENTS = [
     ("operand-types", "let bad = w17p.2;"),
     ("operand-types", "let bad = w17a.0;"),
     ("operand-types", "let mut bad = [w17a, 1u8]; bad[0usize] = w17t;"),
+    ("untyped-let-mut", "let bad = w17u + w17a;"),
+    ("untyped-let-mut", "let bad: i64 = w17u;"),
+    ("untyped-let-mut", "let bad = w17ua[0usize] + w17a;"),
+    ("untyped-let-mut", "let bad: [u8; 2] = w17ua;"),
+    ("untyped-let-mut", "let bad = w17ur[0usize] + w17b;"),
+    ("untyped-let-mut", "let bad: [i64; 2] = w17ur;"),
+    ("untyped-let-mut", "let bad = w17uc[0usize] + w17a;"),
+    ("untyped-let-mut", "let bad: [u8; N17] = w17uc;"),
+    ("untyped-let-mut", "w17uc[0usize] = w17a;"),
+    ("untyped-let-mut", "let bad = w17ut.0 + w17a;"),
+    ("untyped-let-mut", "let bad = h17(w17u, w17t);"),
     ("argument-types", "let bad = h17(w17t, w17t);"),
     ("argument-types", "let bad = h17(w17a, w17a);"),
     ("argument-types", "let bad = h17(w17b, w17t);"),
@@ -152,7 +167,7 @@ def mutate(rng, p, rule, stmt, top):
     inserted = False
     for i, l in enumerate(lines):
         if i == k and not inserted:
-            out.append(PRELUDE + " " + stmt + " let used17 = (w17b, w17s, w17e, w17p, w17arr, w17m, w17i);")
+            out.append(PRELUDE + " " + stmt + " let used17 = (w17b, w17s, w17e, w17p, w17arr, w17m, w17i, w17j);")
             inserted = True
         out.append(l)
     return DEFS + head + (top + "\n" if top else "") + sep + sig + brace + ret + " {\n    " + "\n    ".join(out)
